@@ -7,12 +7,13 @@ MODULES = ["TinsModel.Props.C19"]
 AUDIT = "Audit/C19.lean"
 LEVEL = "proof"
 HARNESS = "c19_acktracker"
-CASE_START = ("init", "new")
+CASE_START = ("init", "finit", "new")
 MANIFEST = dict(
     text="Lean 4 theorems (invariant over all conforming ACK/SACK histories, any initial sequence number, wrap-around "
          "included) over a code-shaped executable model of AckedRange / AckTracker::process_packet / process_sack / "
          "cleanup_sacked_intervals / is_segment_acked, tied to the code by differential correspondence: the real "
-         "AckTracker is driven with real TCP packets carrying SACK options (API-built and wire-parsed) under ASan/UBSan, "
+         "AckTracker is driven with real TCP packets carrying SACK options (API-built, wire-parsed, and through "
+         "TCPIP::Flow::process_packet with ACK tracking enabled) under ASan/UBSan, "
          "its ack_number(), icl intervals and is_segment_acked on a grid around every interval edge, the ACK and the wrap "
          "point are compared with the model, and the executable spec (set of acknowledged absolute byte positions) "
          "judges the implementation's own output.",
@@ -116,7 +117,7 @@ def gen_conforming(rng, max_segs=10, scale=None, sack_on=True):
     loss = rng.choice([0.0, 0.0, 0.2, 0.5])
     maxblocks = rng.choice([4, 4, 3, 1])
     seg_level = rng.random() < 0.3                          # report the segment just received, not the merged block
-    ops = [f"init {a0} {1 if sack_on else 0}"]
+    ops = [f"finit {a0}" if sack_on and rng.random() < 0.25 else f"init {a0} {1 if sack_on else 0}"]
     rcv = Receiver(a0)
     for (l, r) in order:
         newest = rcv.receive(l, r)
@@ -184,7 +185,7 @@ def gen_window_edge(rng):
 def gen_adversarial(rng):
     """arbitrary (non-conforming) traffic: only the model/implementation correspondence applies"""
     base = rng.choice(BOUNDARY_ISNS + [rng.randrange(M32)])
-    ops = [rng.choice([f"init {base} 1", f"init {base} 1", f"init {base} 0", "new"])]
+    ops = [rng.choice([f"init {base} 1", f"init {base} 1", f"init {base} 0", "new", f"finit {base}"])]
 
     def near():
         r = rng.random()
@@ -341,7 +342,9 @@ def run(chk):
     chk.assumptions += [
         "conforming history: cumulative ACK non-decreasing, advancing < 2^31 per observed packet; SACK blocks non-empty, "
         "strictly above the packet's ACK, ending <= ACK + 2^31; a later ACK never lies inside an earlier block",
-        "queries (seq,len) are judged when the whole segment lies in the window (ACK - 2^31, ACK + 2^31) and len <= 2^31",
+        "queries (seq,len) are judged when the whole segment lies in the window (ACK - 2^31, ACK + 2^31) and len <= 2^31; "
+        "outside it serial-number arithmetic has no meaning (Props.C19.segmentAckedAnyLength_fails: is_segment_acked(A, 2^31+1) "
+        "answers true with nothing acknowledged) - such queries are compared model vs code only",
         "boost::icl::interval_set<uint32_t> insert / erase / contains have point-set semantics and keep maximal intervals",
         "SACK blocks that start at or below the ACK (non-conforming; the branch setting ack_number_ to the interval end) "
         "are outside the property: compared model vs code only",
